@@ -1002,8 +1002,15 @@ theorem segLoad_sim (c : Cls) (enc : Enc) (img : Bytes) (k : Nat) (kind : Stream
       simp only [segHdr_isLoaded, Bool.or_false] at sP sF
       rw [if_pos hl] at sP sF
       exact ⟨sP, sF, fun hx => by rw [hFf] at hx; exact absurd hx (by decide)⟩
-    · rw [if_neg hl, if_neg hl]
-      refine ⟨rfl, g4, hfields, by simp, ?_⟩
+    · rw [if_neg hl] at hok
+      rw [if_neg hl, if_neg hl]
+      -- lazy: the answer is the range test's (`is_file_range_valid()`), which is the pure `load_data()` result
+      have iP := segHdr_inv c enc [] lsp.st hdrOff isLazy (img.take k) h.p.data
+      have iF := segHdr_inv c enc [] lsf.st hdrOff isLazy img h.f.data
+      have hok' : (segLoadDataPure (img.take k) (segHdr c enc [] lsp.st hdrOff isLazy)).2 = true := by
+        rw [← segRangeOk_eq_pure c]; simpa using hok
+      obtain ⟨r1, -, -⟩ := segLoadDataPure_rel hfields (by simp) (by simp) iP iF hlen hok'
+      refine ⟨by rw [Bool.false_or, segRangeOk_eq_pure c _ img]; exact r1, g4, hfields, by simp, ?_⟩
       have sP := specP.1; have sF := specF.1
       rw [segLoad_eq] at sP sF
       simp only [segHdr_isLoaded, Bool.or_false] at sP sF
